@@ -57,6 +57,8 @@ def decoder_subjects(ctx, quick):
     S += c06corpus.block_index_subjects(rng, quick, 2 if quick else 12)
     S = [s for s in S if s["kind"] == "dec"]
     S += c06corpus.first_symbol_subjects(rng, quick)
+    S += c06corpus.init_reject_subjects(rng, quick)
+    S += c06corpus.internal_limit_subjects(rng, quick)
     S += c06corpus.flag_variants(S, rng, 0.4 if quick else 1.0)
     S += c06corpus.file_info_big_subjects(rng, quick)
     S += c06corpus.mt_big_subjects(rng, quick)
@@ -188,7 +190,8 @@ def run(ctx):
     futs = S6.start_models(pos + neg, module="Starve", workers=1 if quick else 2, timeout=1500)
     # notifications (LZMA_NO_CHECK / UNSUPPORTED_CHECK / GET_CHECK): returned once, then progress resumes (StallBounded);
     # the coder that returns them before advancing its sequence must violate it
-    nfuts = S6.start_models(["MCStarveNote", "MCStarveNoteStuck"], module="MCStarveNote", workers=1 if quick else 2, timeout=1500)
+    nfuts = S6.start_models(["MCStarveNote", "MCStarveNoteStuck", "MCStarveStop", "MCStarveStopLazy"], module="MCStarveNote",
+                            workers=1 if quick else 2, timeout=1500)
     # (G)
     items = gen_items(ctx, quick)
     sym = S6.gen_plans(ctx)
@@ -239,7 +242,7 @@ def run(ctx):
         ctx.sample(dict(kind="parser_calls", label=phists[0][0], events=phists[0][1][:5]))
     ctx.sample(dict(kind="grammar_item", item=items["bhdr"][len(items["bhdr"]) // 2]))
     S6.collect_models(ctx, futs, expect_violation=neg)
-    S6.collect_models(ctx, nfuts, expect_violation=["MCStarveNoteStuck"])
+    S6.collect_models(ctx, nfuts, expect_violation=["MCStarveNoteStuck", "MCStarveStopLazy"])
     ctx.extra["layers"] = {
         "spec_decidable": "status-code sets (StarveDoc.Documented), internal codes never escape, BUF_ERROR liveness and bound: "
                           "model-checked on Starve.tla and required of every recorded call / parser call by TraceSlicing.tla",
